@@ -9,7 +9,7 @@ Definition text := list N.
 (* exception classes that can escape the modelled code *)
 Inductive exn :=
 | SyntaxErr | VisitErr (e : exn) | InvalidExpr | NotImpl | ValueErr | KeyErr | TypeErr
-| Overflow | UnboundLocal | ValidationErr | AttrErr | ReturnedNone | OutOfFuel.
+| Overflow | UnboundLocal | ValidationErr | AttrErr | ReturnedNone | OtherErr | OutOfFuel.
 
 Inductive result (A : Type) := Ok (a : A) | Exn (e : exn).
 Arguments Ok {A} a.
@@ -26,7 +26,7 @@ Fixpoint exn_eqb (a b : exn) : bool :=
   match a, b with
   | SyntaxErr, SyntaxErr | InvalidExpr, InvalidExpr | NotImpl, NotImpl | ValueErr, ValueErr
   | KeyErr, KeyErr | TypeErr, TypeErr | Overflow, Overflow | UnboundLocal, UnboundLocal
-  | ValidationErr, ValidationErr | AttrErr, AttrErr | ReturnedNone, ReturnedNone | OutOfFuel, OutOfFuel => true
+  | ValidationErr, ValidationErr | AttrErr, AttrErr | ReturnedNone, ReturnedNone | OtherErr, OtherErr | OutOfFuel, OutOfFuel => true
   | VisitErr x, VisitErr y => exn_eqb x y
   | _, _ => false
   end.
@@ -56,7 +56,7 @@ Definition result_eqb {A} (eqb : A -> A -> bool) (a b : result A) : bool :=
 
 Lemma exn_eqb_eq a b : exn_eqb a b = true -> a = b.
 Proof.
-  revert b; induction a as [| e IH | | | | | | | | | | |]; intros b H; destruct b; simpl in H; try discriminate; try reflexivity.
+  revert b; induction a as [| e IH | | | | | | | | | | | |]; intros b H; destruct b; simpl in H; try discriminate; try reflexivity.
   f_equal. now apply IH.
 Qed.
 
